@@ -148,6 +148,66 @@ def svd_contract(M, U, s, VT, tag, full_U=False, full_V=False, exact=True):
             c.assume("ge", so[l].p, f"{tag}: s >= 0")
 
 
+def _svd_related(c, cache, M, k_keep, full, routine_name):
+    """equivariance of the SVD (textbook linear algebra, stated in the evidence): if the matrix is a row/column
+    permutation of, or a scalar multiple (by one symbolic variable) of, a matrix decomposed before, the factors
+    are the correspondingly permuted / scaled earlier factors. The relation is verified syntactically (entrywise
+    identical polynomials). LAPACK's arbitrary per-mode sign for the second call is idealised as the same one;
+    the deterministic sign convention that removes this freedom is verified on its own (C15)."""
+    Mo = obj(M)
+    n, p = Mo.shape
+    keys = np.empty(Mo.shape, dtype=object)
+    for idx in np.ndindex(*Mo.shape):
+        v = Mo[idx]
+        keys[idx] = v.p.key() if isinstance(v, Sym) else ("c", repr(v))
+    for (k1, kk, ff), (U1, s1, V1) in list(cache.items()):
+        if kk != k_keep or ff != full or k1[0] != Mo.shape:
+            continue
+        old = np.empty(Mo.shape, dtype=object)
+        for t, idx in zip(k1[1], np.ndindex(*Mo.shape)):
+            old[idx] = t
+        # column permutation (rows identical)
+        colsig_old = [tuple(old[:, j]) for j in range(p)]
+        colsig_new = [tuple(keys[:, j]) for j in range(p)]
+        if sorted(map(repr, colsig_old)) == sorted(map(repr, colsig_new)) and len(set(map(repr, colsig_old))) == p:
+            perm = [colsig_old.index(cs) for cs in colsig_new]  # new col j == old col perm[j]
+            c.stub_log.append({"stub": routine_name, "shape": [n, p], "k": k_keep, "related": f"column permutation {perm}"})
+            c.notes.append("SVD equivariance used: column permutation of an earlier input")
+            return U1.copy(), s1.copy(), SymArray(obj(V1)[:, perm].copy(), reported_dtype(V1))
+        rowsig_old = [tuple(old[i, :]) for i in range(n)]
+        rowsig_new = [tuple(keys[i, :]) for i in range(n)]
+        if sorted(map(repr, rowsig_old)) == sorted(map(repr, rowsig_new)) and len(set(map(repr, rowsig_old))) == n:
+            perm = [rowsig_old.index(rs) for rs in rowsig_new]
+            c.stub_log.append({"stub": routine_name, "shape": [n, p], "k": k_keep, "related": f"row permutation {perm}"})
+            c.notes.append("SVD equivariance used: row permutation of an earlier input")
+            return SymArray(obj(U1)[perm, :].copy(), reported_dtype(U1)), s1.copy(), V1.copy()
+    # scalar multiple by one fresh variable
+    newvars = set()
+    for v in Mo.flat:
+        if isinstance(v, Sym):
+            newvars |= v.p.vars()
+    for (k1, kk, ff), (U1, s1, V1) in list(cache.items()):
+        if kk != k_keep or ff != full or k1[0] != Mo.shape:
+            continue
+        M1 = c.caches.get("svd_inputs", {}).get((k1, kk, ff))
+        if M1 is None:
+            continue
+        oldvars = set()
+        for v in M1.flat:
+            if isinstance(v, Sym):
+                oldvars |= v.p.vars()
+        for cv, ex in [(v, e) for v in sorted(newvars - oldvars) for e in (1, 2)]:
+            cp = Poly.var(cv, ex)
+            if all(isinstance(a, Sym) and isinstance(b, Sym) and (a.p * cp) == b.p for a, b in zip(M1.flat, Mo.flat)):
+                pos = True if ex == 2 else bool(Sym(cp) > 0)
+                c.stub_log.append({"stub": routine_name, "shape": [n, p], "k": k_keep, "related": f"scalar multiple by {c.name_of(cv)} ({'>' if pos else '<'} 0)"})
+                c.notes.append("SVD equivariance used: scalar multiple of an earlier input")
+                absc = Sym(cp) if pos else Sym(-cp)
+                U2 = U1.copy() if pos else SymArray(-obj(U1), reported_dtype(U1))
+                return U2, SymArray(obj(s1) * absc, F64), V1.copy()
+    return None
+
+
 def _svd_generic(M, k_keep, full_matrices, routine_name, exact=True):
     """shared implementation: k_keep = number of singular triplets returned (None: all)"""
     c = cur()
@@ -163,6 +223,10 @@ def _svd_generic(M, k_keep, full_matrices, routine_name, exact=True):
     if key in cache:
         c.stub_log.append({"stub": routine_name, "shape": [n, p], "k": k_keep, "cached": True})
         return tuple(x.copy() for x in cache[key])  # callers modify the factors in place
+    M_in = M
+    rel = _svd_related(c, cache, M, k_keep, bool(full_matrices), routine_name)
+    if rel is not None:
+        return rel
     M0 = witness_or_none(M)
     res0 = _safe(np.linalg.svd, M0, full_matrices=bool(full_matrices)) if M0 is not None else None
     if res0 is None:
@@ -208,6 +272,7 @@ def _svd_generic(M, k_keep, full_matrices, routine_name, exact=True):
                 c.assume("eq", tot.p, f"{tag}: R V_k = 0")
     c.stub_log.append({"stub": routine_name, "shape": [n, p], "k": k_keep, "full_matrices": bool(full_matrices), "U": U, "s": s, "VT": VT, "M": M, "tag": tag})
     cache[key] = (U.copy(), s.copy(), VT.copy())
+    c.caches.setdefault("svd_inputs", {})[key] = obj(M_in).copy()
     return U, s, VT
 
 
